@@ -183,8 +183,6 @@ def rt_cases(ctx):
     for key in KEYS:
         for coll in ("list", "tuple", "set", "dict_keys", "iterator", "generator"):
             out.append(("Client", dict(tcp=False, prefix=b"p:", unicode=True, enc=1, default_noreply=False, ignore_exc=False), "none", key, b"v\r\nEND\r\n", [1] * 30, coll))
-    if ctx.quick:
-        out = out[::2]
     for serde_name in SERDES:
         if serde_name in ("none", "custom"):
             continue
